@@ -106,6 +106,10 @@ def run(ctx):
             if spec_ok == "false":
                 ctx.violation(f"CircularBinarySegmentation output violates C09: n={c['n']} m={c['m']} maxlen={c['maxlen']} thr={c['thr']} "
                               f"anomalies={anoms} (Coq flags: {flags[:100]})", inp, {"what": "spec", "rows_ok": rows_ok})
+            elif rows_ok == "true":
+                ctx.violation(f"CircularBinarySegmentation anomalies {anoms} are not the greedy above-threshold picks (take the inner interval of the highest-scoring "
+                              f"remaining candidate, discard every candidate overlapping it): n={c['n']} m={c['m']} maxlen={c['maxlen']} thr={c['thr']}", inp,
+                              {"what": "greedy-selection"})
             else:
                 ctx.mismatch(f"CBS model <> implementation: n={c['n']} m={c['m']} maxlen={c['maxlen']} g={c['g']} anomalies={anoms}",
                              inp, {"what": "model-mismatch"})
@@ -116,3 +120,11 @@ def run(ctx):
         inp.update({"anomalies_at_thr": anoms, "anomalies_at_higher_thr": anoms2})
         ctx.violation(f"raising the threshold from {c['thr']} to {c['thr'] + c['dthr']} added anomalies: {anoms} -> {anoms2}", inp,
                       {"what": "threshold-monotonicity"})
+    # ---- object reuse: built-in scores, the same detector over several series ----
+    from harness.reuse import reuse_stream
+    from skchange.anomaly_detectors import CircularBinarySegmentation as CBSD
+    from skchange.costs import GaussianVarCost
+    reuse_stream(ctx, "CircularBinarySegmentation(L2Cost)", lambda: CBSD(min_segment_length=2, max_interval_length=20), ctx.n(5, 30), n_range=(20, 30),
+                 tuned_make=lambda: CBSD(min_segment_length=2, max_interval_length=16, threshold_scale=None, level=0.1))
+    reuse_stream(ctx, "CircularBinarySegmentation(GaussianVarCost)", lambda: CBSD(anomaly_score=GaussianVarCost(), min_segment_length=3, max_interval_length=18),
+                 ctx.n(2, 12), n_range=(20, 28), p_choices=(1, 2))
